@@ -107,7 +107,9 @@ func (r roots) lookup(t *iTree, method, hostPort, path string, c *cTx, lazy bool
 	}
 
 	host := netutil.StripHostPort(hostPort)
-	if host != "" {
+	// A host that contains a slash is no hostname: matching it byte by byte would walk through the '/' child that
+	// separates the hostname from the path and into the path nodes.
+	if host != "" && strings.IndexByte(host, slashDelim) < 0 {
 		// Try first by domain
 		n, tsr = lookupByDomain(t, r[index], host, path, c, lazy)
 		if n != nil {
